@@ -1600,6 +1600,8 @@ static void *peg_unmarshal(JanetMarshalContext *ctx) {
      * bytecode. */
     uint32_t blen = (int32_t) peg->bytecode_len;
     uint32_t clen = peg->num_constants;
+    /* Matching starts at bytecode[0], so there must be at least one instruction */
+    if (blen == 0) janet_panic("invalid peg bytecode");
     uint8_t *op_flags = janet_calloc(1, blen);
     if (NULL == op_flags) {
         JANET_OUT_OF_MEMORY;
